@@ -4,6 +4,7 @@ Oracle: the fault classes injected by the harness itself (altered / removed / ad
 and the paths that must be named; no tool code involved.  Observed: exit code and stdout+stderr of verify, diff, create,
 each run on its own copy of the post-mutation tree."""
 import os
+import re
 import shutil
 
 from .. import classify, drive, hist, world
@@ -71,6 +72,9 @@ def run_case(cs):
                             f.write(data)
     child_first = rng.random() < 0.5
     patterns = rng.sample(PATS, rng.choice([0, 0, 1, 2]))
+    plain_dirs = [x for x in subdirs if "/" not in x and re.match(r"^[A-Za-z0-9_.][A-Za-z0-9_.-]*$", x) and x not in nested]
+    if plain_dirs and rng.random() < 0.3:
+        patterns.append(rng.choice(plain_dirs) + "/")  # a folder pattern, possibly arriving after the folder was recorded
     pat_at = rng.randint(1, 2)
     gens = rng.randint(1, 5)
     if nested and child_first and rng.random() < 0.35:
